@@ -592,10 +592,12 @@ func generate(lv *levels, thorough bool, emit func(tcase)) {
 func checkStatementPairs(c *core.Ctx) {
 	firsts := []string{"a if b", "a if b else c", "a", "f(a)", "a + b", "x := a if b", "return a if b", "yield a if b", "raise a if b", "defer a if b", "a.p", "x := (a if b)", "a if b # note", "a if b  ", "-a", "a if !b"}
 	var seconds []string
+	absolute := map[string]string{} // what a second line must parse to on its own (the name is ONE identifier)
 	for _, kw := range []string{"if", "else", "return", "yield", "raise", "defer"} {
-		for _, suf := range []string{"where", "_val", "1", "X"} {
+		for _, suf := range []string{"where", "_val", "1", "X", "_", "_1", "2x", "_x?"} {
 			n := kw + suf
 			seconds = append(seconds, n+" := 2", n, n+" + 1", n+".p", n+"(1)")
+			absolute[n+" := 2"], absolute[n], absolute[n+" + 1"], absolute[n+".p"], absolute[n+"(1)"] = "("+n+" := 2)", n, "("+n+" + 1)", n+".p()", n+".call(1)"
 		}
 	}
 	seps := []string{"\n", "\n\n", "\n# c\n", "\r\n", " \n ", "\n\t", "; "}
@@ -618,9 +620,15 @@ func checkStatementPairs(c *core.Ctx) {
 			}
 			w1, e1 := alone(f)
 			w2, e2 := alone(s2)
-			if e1 != "" || e2 != "" {
-				c.HarnessError("statement does not parse alone: %q %s / %q %s", f, e1, s2, e2)
+			if e1 != "" {
+				c.HarnessError("statement does not parse alone: %q %s", f, e1)
 				return
+			}
+			if e2 != "" || w2 != absolute[s2] {
+				c.Eval(1)
+				c.Validated(1)
+				c.Violation(core.Violation{Key: "F9/keyword-prefixed-name-not-one-identifier", Case: core.JSON(tcase{Family: "F9:" + s2}), Desc: fmt.Sprintf("%q", s2), Expected: absolute[s2], Observed: w2 + e2})
+				continue
 			}
 			for _, sep := range seps {
 				if strings.Contains(f, "#") && sep == "; " {
@@ -696,6 +704,56 @@ func checkOneLiners(c *core.Ctx, lv *levels) {
 			c.Violation(core.Violation{Key: "F10/one-liner-regrouped", Case: core.JSON(tcase{Family: "F10:" + src}), Desc: "-p -e '" + src + "' with the input line 3", Expected: fmt.Sprintf("%q (what the one-liner gives as a program of its own)", want), Observed: fmt.Sprintf("%q", got)})
 		}
 	})
+}
+
+// ---------------------------------------------------------------- negative number literals as operands
+
+// A prefix minus binds tighter than every infix operator whatever its operand is: `-2 OP x` groups like `-k OP x`
+// (the parser folds -2 into one literal, the only difference allowed), and writing the parentheses changes nothing.
+func checkNegativeLiterals(c *core.Ctx, lv *levels) {
+	ops := infixOps(lv)
+	one := func(src string) (string, string) {
+		n, o := panrun.Parse(src + "\n")
+		if o != nil {
+			return "", o.Kind + ": " + o.ErrMsg + o.Panic
+		}
+		if len(n.Stmts) != 1 {
+			return "", fmt.Sprintf("parsed into %d statements", len(n.Stmts))
+		}
+		return n.Stmts[0].String(), ""
+	}
+	k := 0
+	for _, lit := range []string{"2", "1.5", "0x1f", "1e3"} {
+		for _, o1 := range ops {
+			shapes := [][3]string{
+				{"-" + lit + " " + o1 + " x", "(-" + lit + ") " + o1 + " x", "-k " + o1 + " x"},
+				{"x " + o1 + " -" + lit, "x " + o1 + " (-" + lit + ")", "x " + o1 + " -k"},
+			}
+			for _, o2 := range ops {
+				shapes = append(shapes, [3]string{"-" + lit + " " + o1 + " 3 " + o2 + " x", "(-" + lit + ") " + o1 + " 3 " + o2 + " x", "-k " + o1 + " 3 " + o2 + " x"},
+					[3]string{"y " + o1 + " -" + lit + " " + o2 + " x", "y " + o1 + " (-" + lit + ") " + o2 + " x", "y " + o1 + " -k " + o2 + " x"})
+			}
+			for _, sh := range shapes {
+				k++
+				if !c.Mine(k) {
+					continue
+				}
+				c.Eval(1)
+				c.Nontrivial(1)
+				c.Validated(1)
+				flatAST, e1 := one(sh[0])
+				parAST, e2 := one(sh[1])
+				idAST, e3 := one(sh[2])
+				want := strings.ReplaceAll(idAST, "(-k)", "-"+lit)
+				good := e1 == "" && e2 == "" && e3 == "" && flatAST == parAST && flatAST == want
+				c.Outcome("F11:" + map[bool]string{true: "ok", false: "differs"}[good])
+				if !good {
+					c.Violation(core.Violation{Key: "F11/negative-literal-operand-regrouped", Case: core.JSON(tcase{Family: "F11:" + sh[0]}), Desc: sh[0], Expected: want + "  (grouping of " + sh[2] + ")",
+						Observed: flatAST + e1 + "  /  with parentheses: " + parAST + e2 + e3})
+				}
+			}
+		}
+	}
 }
 
 // ---------------------------------------------------------------- running
@@ -842,6 +900,7 @@ func run(c *core.Ctx) {
 	flush()
 	c.Note("distinct_expressions", k)
 	checkStatementPairs(c)
+	checkNegativeLiterals(c, lv)
 	checkOneLiners(c, lv)
 }
 
@@ -854,6 +913,12 @@ func replay(c *core.Ctx, raw json.RawMessage) {
 	if strings.HasPrefix(tc.Family, "F10:") {
 		if lv, err := readLevels(); err == nil {
 			checkOneLiners(c, lv)
+		}
+		return
+	}
+	if strings.HasPrefix(tc.Family, "F11:") {
+		if lv, err := readLevels(); err == nil {
+			checkNegativeLiterals(c, lv)
 		}
 		return
 	}
